@@ -7,7 +7,8 @@ import (
 )
 
 // TestHarness is the entry point of the test binary:
-//   VERIF_ARGS="-prop C01 -tier quick -seed 1 -out DIR" harness.test -test.run '^TestHarness$' -test.timeout 0
+//
+//	VERIF_ARGS="-prop C01 -tier quick -seed 1 -out DIR" harness.test -test.run '^TestHarness$' -test.timeout 0
 func TestHarness(t *testing.T) {
 	theT = t
 	if code := realMain(strings.Fields(os.Getenv("VERIF_ARGS"))); code != 0 {
